@@ -13,7 +13,7 @@ SBallot(js) == LET S == ToSet(js) IN [c \in {x[1] : x \in S} |-> Rat2((CHOOSE x 
 SBagOf(js) == LET S == ToSet(js) IN [b \in {SBallot(x.s) : x \in S} |-> Rat2((CHOOSE x \in S : SBallot(x.s) = b).w)]
 Write(rec) == Serialize(ToJson(rec) \o "\n", IOEnv.VERDICT_FILE,
                         [format |-> "TXT", charset |-> "UTF-8", openOptions |-> <<"WRITE", "CREATE", "APPEND">>]).exitValue = 0
-Req == [rule |-> T.rule, n |-> T.n, m |-> T.m, m1 |-> T.m1, quota |-> T.quota, vec |-> [i \in 1..Len(T.vec) |-> Rat2(T.vec[i])],
+Req == [xfer |-> T.xfer, rule |-> T.rule, n |-> T.n, m |-> T.m, m1 |-> T.m1, quota |-> T.quota, vec |-> [i \in 1..Len(T.vec) |-> Rat2(T.vec[i])],
         noranking |-> T.noranking, prof |-> BagOf(T.prof0), unscored |-> T.unscored, sprof |-> SBagOf(T.sprof0), gen |-> T.gen,
         rcfg |-> [rule |-> T.rule, m |-> T.m, L |-> Rat2(T.L), hasK |-> T.hasK, k |-> Rat2(T.k), tb |-> "none"]]
 Clause ==
